@@ -459,3 +459,20 @@ func (r *Run) Memo(idx int, out any, f func()) (replayed, hung bool) {
 	w(journalEntry{I: idx, D: d})
 	return false, false
 }
+
+// Bail ends this process at once after case idx because something socketace started cannot be
+// stopped (a goroutine that loops and allocates without bound). What was recorded so far -
+// including the failure that made the caller bail out - is flushed; bin/check continues the
+// shard after idx in a fresh process. In replay mode the result is final.
+func (r *Run) Bail(idx int) {
+	if r.Replay != nil || r.OutPath == "" {
+		r.flush(true)
+		os.Exit(0)
+	}
+	r.mu.Lock()
+	r.nextIndex = idx + 1
+	r.recycled = true
+	r.mu.Unlock()
+	r.flush(false)
+	os.Exit(3)
+}
